@@ -120,3 +120,19 @@ def c27_two_comments_in_prolog_declaration(case):
 
 
 PREDICATES["c27_two_comments_in_prolog_declaration"] = c27_two_comments_in_prolog_declaration
+
+
+def c15_cstyle_end_followed_by_slash(case):
+    """C-style comments: the dedicated expression lets `[^*]/` consume '//' behind a '*/'"""
+    d = (case.get("defs") or {}).get(case.get("cfg")) or {}
+    if not any(bc[0] == ["/", "*"] and bc[1] == ["*", "/"] for m in d.get("modes", []) for bc in m.get("bc", [])):
+        return False
+    e, a = _mismatch(case)
+    if not e or not a:
+        return False
+    t = _text(case)
+    return e.get("ty") == 4 and a.get("ty") == 4 and a.get("s") == e.get("s") and a.get("e", 0) > e.get("e", 0) \
+        and t[e["e"]:e["e"] + 1] == "/" and t[e["e"] - 2:e["e"]] == "*/"
+
+
+PREDICATES["c15_cstyle_end_followed_by_slash"] = c15_cstyle_end_followed_by_slash
